@@ -19,7 +19,7 @@ RULE = ("every mutating public call (create_track, update, the 24 single-field s
 MUTATING = {"create_track", "update", "set", "set_at", "remove_track", "create_root_crate", "create_root_crate_after",
             "create_sub_crate", "create_sub_crate_after", "set_name", "set_parent", "remove_crate", "add_track", "add_track_via_id",
             "remove_track_from", "clear_tracks"}
-CODES = {"quick": [13], "thorough": [13, 10, 5, 19]}
+CODES = {"quick": [13, 10, 5, 19], "thorough": [13, 10, 5, 19, 7, 14, 8]}   # FULL IOERR BUSY CONSTRAINT (NOMEM CANTOPEN READONLY)
 
 
 def opdesc(op):
@@ -202,7 +202,7 @@ def run(ctx):
     ctx.assumptions += ["an injected fault is returned instead of executing the statement, so the failed statement itself has no effect "
                         "by construction; ROLLBACK statements are never failed",
                         "the verdict is equality of full public observations (API level), the autocommit flag, and that the call threw",
-                        "error codes: SQLITE_FULL in quick; FULL, IOERR, BUSY, CONSTRAINT in thorough"]
+                        "error codes cycle through SQLITE_FULL, IOERR, BUSY, CONSTRAINT (thorough adds NOMEM, CANTOPEN, READONLY), one code per history"]
     runner.run_cases(cases, cfg="plain", on_result=lambda r: judge_case(ctx, r), stall_timeout=120)
     seen = set(ctx.extra.get("cases_by_schema", {}))
     if seen != set(ALL_SCHEMAS):
